@@ -279,11 +279,13 @@ class Gen:
             ops.append({"op": "init_pop_array", "arr": [self.static_expr(ARR_POOL) for _ in self.comps]})
             self.count("array_pop")
         if o.allow_computed and r.random() < 0.5:
+            # names are registered in an order that is NOT alphabetical (cvz, cva, ...)
             for i in range(r.randint(1, 2)):
-                ops.append({"op": "computed_value", "name": f"cv{i}", "expr": self.rate_expr(small=False)})
+                cvn = ["cvz", "cva", "cvm"][i]
+                ops.append({"op": "computed_value", "name": cvn, "expr": self.rate_expr(small=False)})
                 self.count("computed_value")
                 if o.allow_requests and r.random() < 0.7:
-                    ops.append({"op": "request", "kind": "cv", "name": f"cv{i}", "save": True})
+                    ops.append({"op": "request", "kind": "cv", "name": cvn, "save": True})
                     self.count("req:cv")
         reqs = self.gen_requests([op["name"] for op in ops if op["op"] == "request"]) if o.allow_requests else []
         ops += reqs
